@@ -8,8 +8,7 @@
    live blocks are the multiset L never touches a block that is not live and ends with L'.
    heap_blocks h / tq_blocks q = the blocks the object owns. *)
 From Coq Require Import NArith ZArith List Permutation.
-From LCP Require Import Base.CheckedMem DS.AllocOracle Gen.Repo_heap DS.PtrHeap DS.TimerQueue DS.PtrHeapInst
-  DS.PtrHeapProofs DS.PtrHeapOps DS.PtrHeapAlloc DS.TimerQueueProofs DS.TimerQueueAlloc DS.PtrHeapRepo.
+From LCP Require Import Base.CheckedMem DS.AllocOracle Gen.Repo_heap DS.PtrHeap DS.TimerQueue DS.PtrHeapInst DS.PtrHeapProofs DS.PtrHeapOps DS.PtrHeapAlloc DS.TimerQueueProofs DS.TimerQueueAlloc DS.PtrHeapRepo.
 Import ListNotations.
 
 (* ---- M1 fail_unchanged: a refusal <-> the error value, nothing notified, the heap as before ---- *)
